@@ -221,6 +221,20 @@ def check_lattice_vectorised(case):
                    expected={"hp": float(hp[i]), "arcsec": float(sec[i])}, observed={"dec": float(out[i]), "diff_arcsec": float(err[i])},
                    bucket="hp2dec_v value")
     out2 = _apply("dec2hp_v", a.dec2hp_v, dec.copy(), "lattice degree %d" % d)
+    # a result handed to the caller stays the caller's: converting another batch of the same shape (and the caller's own input
+    # array) must not change it
+    keep1, keep2 = np.array(out, dtype=float, copy=True), np.array(out2, dtype=float, copy=True)
+    hp_in, dec_in = hp.copy(), dec.copy()
+    _apply("hp2dec_v", a.hp2dec_v, hp_in[::-1].copy(), "lattice degree %d (reversed batch)" % d)
+    _apply("dec2hp_v", a.dec2hp_v, dec_in[::-1].copy(), "lattice degree %d (reversed batch)" % d)
+    if not (np.array_equal(np.asarray(out, dtype=float), keep1) and np.array_equal(np.asarray(out2, dtype=float), keep2)):
+        raise Fail("hp2dec_v / dec2hp_v: an array returned earlier was changed by a later call", expected="results owned by the caller",
+                   observed={"degree": d}, bucket="vectorised result aliased")
+    h0, d0 = hp.copy(), dec.copy()
+    a.hp2dec_v(h0)
+    a.dec2hp_v(d0)
+    if not (np.array_equal(h0, hp) and np.array_equal(d0, dec)):
+        raise Fail("hp2dec_v / dec2hp_v modified the caller's input array", observed={"degree": d}, bucket="vectorised input modified")
     for j, h in enumerate(np.asarray(out2, dtype=float)):
         df = _fden("hp", float(h))
         if df is None:
